@@ -590,6 +590,111 @@ func TestVerifC03(t *testing.T) {
 		add("garbage", rng.Bytes(32), rng.Bytes(32), rng.Bytes(32), rng.Bytes(32), rng.Bytes(32))
 		add("garbage-valid-key", px, py, rng.Bytes(32), rng.Bytes(32), rng.Bytes(32))
 	}
+	// CHOSEN (r, R) PAIRS for the final comparison. The digest is the attacker's to choose: for any r, s and any target
+	// value R* the digest e = R* - x1 (mod n) makes the verifier compute exactly R = R*. So the last step "R == r" can be
+	// given any pair: R* equal to r only in its low limbs (R* has fewer limbs than r), only in its high limbs, different
+	// in one bit, r with fewer limbs than R* ... The model decides (it accepts only R* = r).
+	{
+		clear := func(v *big.Int, fromByte, toByte int) *big.Int { // zero big endian bytes [from, to)
+			b := ref.B32(v)
+			for i := fromByte; i < toByte; i++ {
+				b[i] = 0
+			}
+			return ref.Int(b)
+		}
+		for i := 0; i < hk.N(6, 40); i++ {
+			K := kps[i%len(kps)]
+			px, py := ref.B32(K.P.X), ref.B32(K.P.Y)
+			rv, sv := randScalar(rng), randScalar(rng)
+			tv := ref.ModN(new(big.Int).Add(rv, sv))
+			if tv.Sign() == 0 {
+				continue
+			}
+			X := ref.BaseMulFast(sv).Add(K.P.Mul(tv))
+			if X.Inf {
+				continue
+			}
+			type tgt struct {
+				name string
+				v    *big.Int
+			}
+			tgts := []tgt{{"equal", rv}, {"zero", bi(0)}}
+			for _, k := range []int{1, 4, 7, 8, 9, 16, 17, 24, 31} {
+				tgts = append(tgts, tgt{fmt.Sprintf("R=r-with-top-%d-bytes-cleared", k), clear(rv, 0, k)})
+				tgts = append(tgts, tgt{fmt.Sprintf("R=r-with-low-%d-bytes-cleared", k), clear(rv, 32-k, 32)})
+			}
+			for _, bit := range []int{0, 31, 32, 63, 64, 127, 128, 191, 192, 254} {
+				tgts = append(tgts, tgt{fmt.Sprintf("R=r-with-bit-%d-flipped", bit), new(big.Int).Xor(rv, new(big.Int).Lsh(bi(1), uint(bit)))})
+			}
+			tgts = append(tgts, tgt{"R=r-limbs-reversed", ref.Int(append(append(append(append([]byte{}, ref.B32(rv)[24:]...), ref.B32(rv)[16:24]...), ref.B32(rv)[8:16]...), ref.B32(rv)[:8]...))})
+			for _, tg := range tgts {
+				if tg.v.Cmp(nI) >= 0 {
+					continue
+				}
+				e := ref.ModN(new(big.Int).Sub(tg.v, X.X))
+				add("chosen-R:"+tg.name, px, py, ref.B32(e), ref.B32(rv), ref.B32(sv))
+			}
+			// the other way round: r has fewer limbs than R*
+			for _, k := range []int{8, 16, 24} {
+				rs := clear(rv, 0, k)
+				if rs.Sign() == 0 {
+					continue
+				}
+				ts := ref.ModN(new(big.Int).Add(rs, sv))
+				if ts.Sign() == 0 {
+					continue
+				}
+				Xs := ref.BaseMulFast(sv).Add(K.P.Mul(ts))
+				if Xs.Inf {
+					continue
+				}
+				for _, tg := range []tgt{{"equal", rs}, {"R=short-r-plus-high-limbs", rv}} {
+					e := ref.ModN(new(big.Int).Sub(tg.v, Xs.X))
+					add(fmt.Sprintf("chosen-R:r-has-%d-leading-zero-bytes:%s", k, tg.name), px, py, ref.B32(e), ref.B32(rs), ref.B32(sv))
+				}
+			}
+		}
+	}
+	// r and s from the LIMB GRID around n (each limb 0, n_i - 1, n_i, n_i + 1 or all ones). Values at or above n are made
+	// as dangerous as they can be: the tuple is VALID for the value reduced mod n, so a range test that lets one of
+	// them through (a limb-wise comparison that forgets a condition) accepts. Values below n are valid tuples and must pass.
+	{
+		grid := ref.LimbGrid(nI)
+		for gi, g := range grid {
+			if !hk.Thorough() && gi%2 != int(hk.Seed()%2) {
+				continue
+			}
+			K := kps[gi%len(kps)]
+			px, py := ref.B32(K.P.X), ref.B32(K.P.Y)
+			red := ref.ModN(g)
+			if red.Sign() == 0 {
+				continue
+			}
+			where := "below-n"
+			if g.Cmp(nI) >= 0 {
+				where = "at-or-above-n"
+			}
+			// as s
+			{
+				tv := randScalar(rng)
+				e, rr, inf := tupleFor(K.P, red, tv)
+				if !inf && rr.Sign() != 0 {
+					add("limb-grid-around-n:s:"+where, px, py, ref.B32(e), ref.B32(rr), ref.B32(g))
+				}
+			}
+			// as r: r = t - s, so s = t - r
+			{
+				tv := randScalar(rng)
+				sv := ref.ModN(new(big.Int).Sub(tv, red))
+				if sv.Sign() != 0 {
+					e, rr, inf := tupleFor(K.P, sv, tv)
+					if !inf && rr.Cmp(red) == 0 {
+						add("limb-grid-around-n:r:"+where, px, py, ref.B32(e), ref.B32(g), ref.B32(sv))
+					}
+				}
+			}
+		}
+	}
 	rep.Sample(hk.D{"label": cases[0].label, "px": hk.Hex(cases[0].px), "py": hk.Hex(cases[0].py), "e": hk.Hex(cases[0].e), "r": hk.Hex(cases[0].r), "s": hk.Hex(cases[0].s)})
 	hk.Parallel(len(cases), func(i int) {
 		if hk.InShard(i) {
